@@ -393,3 +393,24 @@ Proof.
   replace (negb (String.eqb (wl_canary w) (su_canary_rev u))) with true in H by (symmetry; apply negb_true_iff, String.eqb_neq; exact Hrev).
   cbn in H. injection H as <-. cbn. split; [reflexivity|]. exists s. auto.
 Qed.
+
+(* C03 (blue-green): a reconcile brings a step from Init / Upgrade to its traffic-routing state only when the BatchRelease
+   reports this step's batch Ready for exactly this step's plan: the step's traffic is written only behind ready pods *)
+Theorem bg_traffic_only_behind_ready_pods sp st w br m u x y :
+  reconcile_bg sp st w br = ROut m ->
+  rp_phase st = RpProgressing -> rs_deleting sp = false ->
+  rp_prog st = Some (PrInRolling, x, y) -> rp_sub st = Some u ->
+  (su_next u = next_index (nsteps sp) (su_idx u) \/ su_next u <= 0) ->
+  (sempty (su_hash u) = true \/ su_hash u = rs_hash sp) ->
+  wl_canary w = su_canary_rev u ->
+  forall s' v, o_status m = Some s' -> rp_sub s' = Some v ->
+  (su_state u = StInit \/ su_state u = StUpgrade) -> su_state v = StTraffic ->
+  br_ready_for sp (observed_sub w u) w (synced_br (observed_sub w u) br) = true.
+Proof.
+  intros H Hph Hdel Hprog Hu Hnext Hhash Hrev s' v Hs' Hv Hst Hv'.
+  pose proof (observed_sub_keeps w u) as Hk. cbn zeta in Hk. destruct Hk as [Ki [Kst _]].
+  destruct (bg_steps_are_gated sp st w br m u x y H Hph Hdel Hprog Hu Hnext Hhash Hrev s' v Hs' Hv) as [[_ Hs]|Hg].
+  - rewrite Hv' in Hs. destruct Hst as [Hst|Hst]; rewrite Hst in Hs; discriminate.
+  - unfold gated_sub_bg in Hg. rewrite Kst, Hv' in Hg.
+    destruct Hst as [Hst|Hst]; rewrite Hst in Hg; apply andb_true_iff in Hg; exact (proj2 Hg).
+Qed.
